@@ -60,6 +60,10 @@ type options struct {
 	// by all copies of the options made during the call
 	eval *evalState
 
+	// references of the merge target evaluated by resolveMergeTargets before
+	// the current Merge modifies the target (private copies of their values)
+	mergeTargets map[*cfgDynamic]*Config
+
 	ignoreCommas bool
 }
 
